@@ -87,7 +87,7 @@ fn classify(v: &str) -> &'static str {
 
 const HOSTILE: &[&str] = &[
     // numeric looking
-    "0", "5", "1883", "9223372036854775807", "007", "00", "0123", "+5", "-5", "-0", "99999999999999999999", "1.5", "0.25", "10.0", "1.50",
+    "0", "5", "1883", "9223372036854775807", "9223372036854775808", "18446744073709551615", "18446744073709551616", "9999999999999999999", "007", "00", "0123", "+5", "-5", "-0", "99999999999999999999", "1.5", "0.25", "10.0", "1.50",
     "01.5", "1.0e3", "1e5", "1E5", "1.5e3", "2e-3", "1.", ".5", "-1.5", "+2.5", "inf", "nan", "NaN", "infinity", "Infinity", "-inf", "+inf", "-nan",
     // quotes / backslashes
     "say \"hi\"", "\"", "a\"b", "\"quoted\"", "x\") stream Evil = Tick", "a\") # ", "a\")\n# ", "a\")Z#", "back\\slash", "C:\\dir\\file", "\\n", "a\\\\b", "tail\\", "\\", "a\\\"b",
@@ -112,7 +112,15 @@ fn gen_value(rng: &mut Rng) -> String {
             for _ in 0..rng.below(3) {
                 s.push('0');
             }
-            s.push_str(&rng.below(1000).to_string());
+            if rng.chance(1, 4) {
+                // 18-21 digit runs around the i64 / u64 limits
+                s.push_str(&(1 + rng.below(9)).to_string());
+                for _ in 0..17 + rng.below(4) {
+                    s.push_str(&rng.below(10).to_string());
+                }
+            } else {
+                s.push_str(&rng.below(1000).to_string());
+            }
             if rng.chance(1, 2) {
                 s.push('.');
                 s.push_str(&rng.below(100).to_string());
